@@ -380,6 +380,9 @@ func (fv *FV) lookupGhostVar(pc *PkgContracts, name string) *GhostVar {
 			if g := look(fv.w.contracts[imp]); g != nil {
 				return g
 			}
+			if g := look(fv.w.libc[imp]); g != nil {
+				return g
+			}
 		}
 		return nil
 	}
@@ -469,12 +472,21 @@ func (fv *FV) arith(op string, l, r Term, goSemantics bool, st *State, pos token
 			return Term{S: fv.truncMod(l.S, r.S), Sort: sInt, T: rt}
 		case "<", "<=", ">", ">=":
 			return Term{S: app(op, l.S, r.S), Sort: sBool}
+		case "|":
+			if p, ok := powerOfTwo(r.S); ok {
+				bit := eq(app("mod", app("div", l.S, fmt.Sprint(p)), "2"), "1")
+				return Term{S: ite(bit, l.S, app("+", l.S, fmt.Sprint(p))), Sort: sInt, T: rt}
+			}
 		case "&^":
 			// n &^ (2^k-1) for n >= 0
 			if m, ok := lowMask(r.S); ok {
 				return Term{S: app("-", l.S, app("mod", l.S, fmt.Sprint(m+1))), Sort: sInt, T: rt}
 			}
 		case "&":
+			if p, ok := powerOfTwo(r.S); ok && p > 1 || ok && r.S == "1" {
+				bit := eq(app("mod", app("div", l.S, fmt.Sprint(p)), "2"), "1")
+				return Term{S: ite(bit, fmt.Sprint(p), "0"), Sort: sInt, T: rt}
+			}
 			if m, ok := lowMask(r.S); ok {
 				return Term{S: app("mod", l.S, fmt.Sprint(m+1)), Sort: sInt, T: rt}
 			}
@@ -519,6 +531,14 @@ func (fv *FV) arith(op string, l, r Term, goSemantics bool, st *State, pos token
 	}
 	fv.sfail("unsupported operator %s on sort %s", op, l.Sort)
 	return Term{}
+}
+
+func powerOfTwo(s string) (int64, bool) {
+	v, err := strconv.ParseInt(s, 10, 64)
+	if err != nil || v <= 0 {
+		return 0, false
+	}
+	return v, v&(v-1) == 0
 }
 
 func lowMask(s string) (int64, bool) {
@@ -617,7 +637,11 @@ func (fv *FV) fieldTerm(st *State, v Term, name string) Term {
 			fv.sfail("no field %s in %s", name, p.Elem())
 		}
 		key, _ := fv.fieldComp(named, f)
-		return fv.shorten(Term{S: sel(fv.heapGet(st, key), v.S), Sort: fv.sortOf(f.Type()), T: f.Type()}, f.Name())
+		ft := f.Type()
+		if isOpaqueStruct(ft) {
+			ft = types.NewPointer(ft) // the embedded library object, by reference
+		}
+		return fv.shorten(Term{S: sel(fv.heapGet(st, key), v.S), Sort: fv.sortOf(f.Type()), T: ft}, f.Name())
 	}
 	if named, ok := types.Unalias(t).(*types.Named); ok {
 		if _, isIface := named.Underlying().(*types.Interface); isIface {
@@ -665,6 +689,9 @@ func (fv *FV) ghostField(named *types.Named, name string) string {
 		return ""
 	}
 	pc := fv.w.contracts[pkgPathOf(named.Obj())]
+	if pc == nil {
+		pc = fv.w.libc[pkgPathOf(named.Obj())]
+	}
 	if pc == nil {
 		return ""
 	}
@@ -1113,6 +1140,24 @@ func (fv *FV) specCall(env *Env, c *SCall) Term {
 		need(2)
 		a := args()
 		return fv.pureApp(a[0], a[1:])
+	case "strhas":
+		// strhas(s, b): the byte b occurs in the string s; for a literal s a finite disjunction
+		need(2)
+		a := args()
+		b, _ := fv.coerce(a[1], Term{Sort: sBV8})
+		if lit, ok := fv.strLits[a[0].S]; ok {
+			var ds []string
+			seen := map[byte]bool{}
+			for i := 0; i < len(lit); i++ {
+				if !seen[lit[i]] {
+					seen[lit[i]] = true
+					ds = append(ds, eq(b.S, fmt.Sprintf("(_ bv%d 8)", lit[i])))
+				}
+			}
+			return Term{S: or(ds...), Sort: sBool}
+		}
+		k := fmt.Sprintf("k?u%d", env.qdepth+1)
+		return Term{S: fmt.Sprintf("(exists ((%s Int)) (and (<= 0 %s) (< %s (strlen %s)) (= (strdata (strbase %s) (+ (stroff %s) %s)) %s)))", k, k, k, a[0].S, a[0].S, a[0].S, k, b.S), Sort: sBool}
 	case "oldelem":
 		// oldelem(s, i): element i of slice s in the old heap; s is evaluated in the old state, i in the current one
 		need(2)
